@@ -39,14 +39,10 @@ theorem writeBitfield_pb (s : St) (h : PBehind s) : PBehind s.writeBitfield := b
 theorem stopAlloc_pb (s : St) (h : PBehind s) : PBehind (stopAlloc s) := by
   unfold stopAlloc
   split
-  · split
-    · exact h.of_eq rfl rfl rfl
-    · dsimp only
-      generalize ((List.range s.cfg.flens.length).filter (fun i => !(s.cfg.fpads.getD i false))).any
-        (fun i => !(s.fileExists.getD i false)) = c
-      refine ⟨h.dv, fun i hi => ?_⟩
-      have hs := h.sub i
-      cases c <;> cases hb : s.bf <;> simp_all
+  · generalize (allocOpened s).any (fun i => !(s.fileExists.getD i false)) = c
+    refine ⟨h.dv, fun i hi => ?_⟩
+    have hs := h.sub i
+    cases c <;> cases hb : s.bf <;> simp_all
   · exact h
 
 theorem stop_pb (s : St) (e : Bool) (h : PBehind s) : PBehind (s.stop e) := by
@@ -54,7 +50,10 @@ theorem stop_pb (s : St) (e : Bool) (h : PBehind s) : PBehind (s.stop e) := by
   split
   · exact h
   · unfold stopRun
-    have h1 : PBehind (stopClear (stopPeers (stopA s e))) := h.of_eq (by simp) (by simp) (by simp)
+    have h1 : PBehind (stopClear (stopPeers (stopA s e))) :=
+      ⟨by simp [stopA, h.dv], fun i hi => by
+        have := h.sub i (by simpa using hi)
+        simpa using this⟩
     have h2 : PBehind (stopWB (stopClear (stopPeers (stopA s e)))) := by
       unfold stopWB; split
       · exact writeBitfield_pb _ h1
@@ -156,11 +155,12 @@ theorem handleAllocationDone_pb (m : M) (ex mi : Bool) (h : PBehind m.1) :
     · exact h0.of_eq rfl rfl rfl
 
 theorem allocatorRun_pb (m : M) (h : PBehind m.1) : PBehind (allocatorRun m).1 := by
-  unfold allocatorRun
-  dsimp only
+  rw [allocatorRun_eq]
   split
-  · simp only [onSt_fst]; exact stop_pb _ _ (h.of_eq rfl rfl rfl)
-  · exact handleAllocationDone_pb _ _ _ (h.of_eq rfl rfl rfl)
+  · unfold allocFail
+    simp only [onSt_fst]
+    exact stop_pb _ _ (hadForget_pb _ _ (h.of_eq (by simp) (by simp) (by simp)))
+  · exact handleAllocationDone_pb _ _ _ (h.of_eq (by simp) (by simp) (by simp))
 
 theorem hvdInstall_pb (m : M) (h : PBehind m.1) : PBehind (hvdInstall m).1 := by
   rw [hvdInstall_eq]
@@ -198,6 +198,8 @@ theorem handlePieceWriteDone_pb (m : M) (w : WriteJob) (e : Bool) (h : PBehind m
   have h0 : PBehind (pwdReset m w).1 := h.of_eq (by simp) (by simp) (by simp)
   split
   · exact h0.of_eq (by simp) (by simp) (by simp)
+  split
+  · exact h0
   · split
     · simp only [onSt_fst]; exact stop_pb _ _ h0
     · have h1 : PBehind (pwdDone (pwdReset m w) w).1 := h0.of_eq (by simp) (by simp) (by simp)
@@ -229,6 +231,7 @@ theorem writerRun_pb (m : M) (w : WriteJob) (h : PBehind m.1) : PBehind (writerR
   all_goals first
     | exact handlePieceWriteDone_pb _ _ _ h
     | exact handlePieceWriteDone_pb _ _ _ (h.of_eq rfl rfl rfl)
+    | exact h.of_eq rfl rfl rfl
 
 /-- With no verify pending `handleStopped` does not touch the bitfield. -/
 theorem handleStopped_pb (m : M) (h : PBehind m.1) : PBehind (handleStopped m).1 := by
@@ -263,6 +266,7 @@ theorem runWorkers_pb (fuel : Nat) (m : M) (h : PBehind m.1) : PBehind (runWorke
       | exact ih _ (handleStopped_pb _ h)
       | exact ih _ (allocatorRun_pb _ h)
       | exact ih _ (handleVerificationDone_pb _ h)
+      | exact ih _ (handlePieceWriteDone_pb _ _ _ h)
       | exact ih _ (writerRun_pb _ _ h)
 
 theorem handlePieceMessage_pb (m : M) (k i b l : Nat) (g : Bool) (h : PBehind m.1) :
